@@ -10,6 +10,7 @@ import YtkProofs.DiffSpec
 import YtkProofs.DiffRel
 import YtkProofs.DiffOverlay
 import YtkProofs.DiffDet
+import YtkProofs.DiffTies
 import YtkProofs.ValidB
 
 namespace Ytk.C07
@@ -97,20 +98,40 @@ theorem emit_order_irrelevant_per_path (l r : AMap Node) (hl : Good (.cont l)) (
     ms.filter (fun m => m.path = q) = (emit l r).filter (fun m => m.path = q) :=
   emitRel_filter h hl hr q
 
-/-
-  TODO (stated, not proved) — the shape of ties and multiplicity one:
+/-- The shape of ties: the modifications `diff` reports for one path are nothing, a single
+    modification, or the Delete of the path immediately followed (among those of that path) by
+    one Add of a leaf at the very same path (a position replaced by a scalar). -/
+theorem diff_path_shape (l r : AMap Node) (hl : Good (.cont l)) (hr : Good (.cont r)) (q : String) :
+    (diff l r).filter (fun m => m.path = q) = [] ∨
+    (∃ m, (diff l r).filter (fun m => m.path = q) = [m]) ∨
+    (∃ v, (diff l r).filter (fun m => m.path = q) = [Mod.mkDel q, Mod.mkAdd q v]) :=
+  diff_tieShape hl hr q
 
-    theorem diff_delete_before_add (l r) (hl : Good (.cont l)) (hr : Good (.cont r)) (i j : Nat) (hij : i < j) … :
-        (diff l r)[i].path = (diff l r)[j].path → (diff l r)[i].ty = .delete ∧ (diff l r)[j].ty = .add
-    theorem diff_nodup_positions … : per path at most one Delete, one Change, one Add
+/-- Two entries of the result with the same path: the earlier one is exactly the Delete of that
+    path and the later one an Add at it. -/
+theorem diff_tie_pair (l r : AMap Node) (hl : Good (.cont l)) (hr : Good (.cont r)) (i j : Nat) (hij : i < j)
+    (hj : j < (diff l r).length) (h : (diff l r)[i].path = (diff l r)[j].path) :
+    (diff l r)[i] = Mod.mkDel (diff l r)[j].path ∧ ∃ v, (diff l r)[j] = Mod.mkAdd (diff l r)[j].path v :=
+  (diff_tieShape hl hr).getElem_pair hij hj h
 
-  `diff_ties_emission_order` (proved) reduces both to the emission order; what is missing is that
-  the sub-sequence of `emit l r` for one path is `[]`, `[m]` or `[Delete p, Add p v]` — the
-  injectivity of path rendering inside one block (C02's `render_injective_on_leafPaths`), of which
-  only the between-blocks half (`key_eq_of_under`, YtkProofs/DiffDet.lean) is proved here.
-  Exactness as a set is `diff_mem_iff`; the order of ties is carried by the harness predicate
-  `ties-delete-then-add` and by `nonvacuous_diff`.
--/
+/-- Delete before Add: whenever two entries share a path, the earlier is a Delete and the later
+    an Add. -/
+theorem diff_delete_before_add (l r : AMap Node) (hl : Good (.cont l)) (hr : Good (.cont r)) (i j : Nat)
+    (hij : i < j) (hj : j < (diff l r).length) (h : (diff l r)[i].path = (diff l r)[j].path) :
+    (diff l r)[i].ty = .delete ∧ (diff l r)[j].ty = .add := by
+  obtain ⟨h1, v, h2⟩ := diff_tie_pair l r hl hr i j hij hj h
+  exact ⟨congrArg Mod.ty h1, congrArg Mod.ty h2⟩
+
+/-- Multiplicity one: no path carries two modifications of the same kind. -/
+theorem diff_nodup_positions (l r : AMap Node) (hl : Good (.cont l)) (hr : Good (.cont r)) :
+    ((diff l r).map (fun m => (m.path, m.ty))).Nodup := by
+  refine List.pairwise_iff_getElem.mpr ?_
+  intro i j hi hj hij e
+  simp only [List.length_map] at hi hj
+  simp only [List.getElem_map, Prod.mk.injEq] at e
+  have := diff_delete_before_add l r hl hr i j hij hj e.1
+  rw [this.1, this.2] at e
+  exact absurd e.2 (by decide)
 
 /-! ## non-vacuity -/
 
@@ -160,6 +181,12 @@ theorem nonvacuous_overlay :
 theorem nonvacuous_good : Good (.cont exL) ∧ Good (.cont exR) := by
   refine ⟨⟨nonvacuous_valid.1, ?_⟩, ⟨nonvacuous_valid.2, ?_⟩⟩ <;>
     simp only [exL, exR, Node.SafeKeys, SafeKeysKvs, SafeKeysList, SafeKey] <;> decide +kernel
+
+/-- the tie on `k` (indices 4 and 5 of `diff exL exR`): Delete first, then the Add -/
+theorem nonvacuous_tie :
+    (diff exL exR).filter (fun m => m.path = "k") = [Mod.mkDel "k", Mod.mkAdd "k" (i 5)] ∧
+    (diff exL exR)[4]? = some (Mod.mkDel "k") ∧ (diff exL exR)[5]? = some (Mod.mkAdd "k" (i 5)) := by
+  decide +kernel
 
 theorem nonvacuous_tiefree : ((emit exR exL).map (·.path)).Nodup := by decide +kernel
 
